@@ -417,3 +417,6 @@ func (h *hx) e2ePair(cfg srvCfg, cli uint64, host string, t0 int64) {
 		h.out.Cover(fmt.Sprintf("e2e_pair_call_%d_reports_the_server", i))
 	}
 }
+
+var VerifE2EClientSession func(priv crypto.PrivKey, host string, ncalls int,
+	beforeCall func(call int), respond func(call int, reqHdr string) (status int, www, info string)) ([]peer.ID, []error)
